@@ -131,39 +131,56 @@ Theorem C08_traceless_branch_prefix_refuted :
 Proof. exact traceless_branch_prefix_refuted. Qed.
 Print Assumptions C08_traceless_branch_prefix_refuted.
 
-(* pc_infid_sum: with the cached pulse-correlation control matrix the (corrected) pulse-correlation infidelities
-   sum to the total infidelity of the summed control matrix, for every Hermitian basis *)
+(* pc_infid_sum: the branch of the package (after fix a9e668a) returns a value or raises CalculationError ([None]);
+   WHENEVER a value is returned the pulse-correlation infidelities sum to the total infidelity.  [sel_tl] is the verdict
+   of np.allclose(tr N_a, 0) on the selected operators, read as: the identity component of the selected rows vanishes *)
+Theorem C08_pc_infid_sum_returned : forall d (basis : list MatR), (0 < d)%nat ->
+  basis_herm d (length basis) (fun k => toF (nthm basis k)) ->
+  forall na nk no (Bpc : list A3r) idx (sp : spectrumR) omega, nk = length basis -> idx_ok na idx -> length omega = no ->
+  forall has_cm sel_tl Rv i j,
+  infidelity_pc RO d has_cm sel_tl na nk no Bpc basis idx sp omega = Some Rv ->
+  (sel_tl = true -> identity_component_vanishes d basis nk no Bpc idx) ->
+  (i < length idx)%nat -> (j < length idx)%nat -> (is_cross sp = false -> i = j) ->
+  sumn' (length Bpc) (fun g => sumn' (length Bpc) (fun h => nth (lead_pos sp (length idx) i j) (nth h (nth g Rv []) []) 0)) =
+  nth (lead_pos sp (length idx) i j) (infidelity_total RO d na nk no (cm_pc_sum RO na nk no Bpc) basis idx sp omega) 0.
+Proof. exact pc_infid_sum_returned. Qed.
+Print Assumptions C08_pc_infid_sum_returned.
+(* the error outcome occurs exactly when the control matrix is gone and a selected operator has a trace *)
+Theorem C08_pc_error_iff : forall d (basis : list MatR) na nk no (Bpc : list A3r) idx (sp : spectrumR) omega has_cm sel_tl,
+  infidelity_pc RO d has_cm sel_tl na nk no Bpc basis idx sp omega = None <-> (has_cm = false /\ sel_tl = false).
+Proof. exact pc_error_iff. Qed.
+(* corrected values (control matrix cached) sum to the total *)
 Theorem C08_pc_infid_sum : forall d (basis : list MatR), (0 < d)%nat ->
   basis_herm d (length basis) (fun k => toF (nthm basis k)) ->
   forall na nk no (Bpc : list A3r) idx (sp : spectrumR) omega, nk = length basis -> idx_ok na idx -> length omega = no ->
   forall i j, (i < length idx)%nat -> (j < length idx)%nat -> (is_cross sp = false -> i = j) ->
   sumn' (length Bpc) (fun g => sumn' (length Bpc) (fun h =>
-     nth (lead_pos sp (length idx) i j) (nth h (nth g (infidelity_pc RO d true na nk no Bpc basis idx sp omega) []) []) 0)) =
+     nth (lead_pos sp (length idx) i j) (nth h (nth g (infidelity_pc_value RO d true na nk no Bpc basis idx sp omega) []) []) 0)) =
   nth (lead_pos sp (length idx) i j) (infidelity_total RO d na nk no (cm_pc_sum RO na nk no Bpc) basis idx sp omega) 0.
 Proof. exact pc_infid_sum. Qed.
 Print Assumptions C08_pc_infid_sum.
-(* WITHOUT the cached control matrix (only the pulse-correlation filter function left, e.g. after cleanup('greedy'))
-   the branch is uncorrected: the sum exceeds the total by the identity component ... *)
-Theorem C08_pc_uncached_excess : forall d (basis : list MatR), (0 < d)%nat ->
+(* PRE-FIX (before a9e668a): without the cached control matrix the uncorrected values were returned for every operator:
+   the sum exceeds the total by the identity component ... *)
+Theorem C08_pc_uncached_prefix_excess : forall d (basis : list MatR), (0 < d)%nat ->
   basis_herm d (length basis) (fun k => toF (nthm basis k)) ->
   forall na nk no (Bpc : list A3r) idx (sp : spectrumR) omega, nk = length basis -> idx_ok na idx -> length omega = no ->
   forall i j, (i < length idx)%nat -> (j < length idx)%nat -> (is_cross sp = false -> i = j) ->
   sumn' (length Bpc) (fun g => sumn' (length Bpc) (fun h =>
-     nth (lead_pos sp (length idx) i j) (nth h (nth g (infidelity_pc RO d false na nk no Bpc basis idx sp omega) []) []) 0)) =
+     nth (lead_pos sp (length idx) i j) (nth h (nth g (infidelity_pc_value RO d false na nk no Bpc basis idx sp omega) []) []) 0)) =
   nth (lead_pos sp (length idx) i j) (infidelity_total RO d na nk no (cm_pc_sum RO na nk no Bpc) basis idx sp omega) 0
   + GT d basis (rmbuild nk nk (fun k l => Gamma (cm_pc_sum RO na nk no Bpc) (cm_pc_sum RO na nk no Bpc) idx sp no omega i j k l))
     / (INR d * INR d).
 Proof. exact pc_uncached_excess. Qed.
-(* ... REFUTED as "pulse-correlation infidelities sum to the total" on that path (open finding) *)
-Theorem C08_pc_uncached_refuted :
+(* ... REFUTED as "pulse-correlation infidelities sum to the total" (fixed defect) *)
+Theorem C08_pc_uncached_prefix_refuted :
   exists (basis : list MatR) (Bpc : list A3r) (sp : spectrumR) (omega : list R),
     let d := 2%nat in let n := length basis in let Cb := fun k => toF (nthm basis k) in
     basis_herm d n Cb /\ basis_orthonormal d n Cb /\ basis_complete d n Cb /\
     sumn' (length Bpc) (fun g => sumn' (length Bpc) (fun h =>
-       nth 0 (nth h (nth g (infidelity_pc RO d false 1 n 2 Bpc basis [0%nat] sp omega) []) []) 0)) <>
+       nth 0 (nth h (nth g (infidelity_pc_value RO d false 1 n 2 Bpc basis [0%nat] sp omega) []) []) 0)) <>
     nth 0 (infidelity_total RO d 1 n 2 (cm_pc_sum RO 1 n 2 Bpc) basis [0%nat] sp omega) 0.
-Proof. exact pc_uncached_refuted. Qed.
-Print Assumptions C08_pc_uncached_refuted.
+Proof. exact pc_uncached_prefix_refuted. Qed.
+Print Assumptions C08_pc_uncached_prefix_refuted.
 
 (* infid_nonneg: positive-semidefinite spectrum, non-decreasing grid => total infidelity >= 0 *)
 Theorem C08_infid_nonneg : forall d na nk no (Bm : A3r) idx (sp : spectrumR) omega,
